@@ -166,8 +166,8 @@ theorem onRun_loginHead (k : CS → Oracle → List Out → Option Time → PA) 
     LoginHead (onRun k rest c a o out tmo left).1.dev := by
   unfold onRun at hna ⊢
   dsimp only at hna ⊢
-  have hL := innerLoop_link c.env.now 64 { c.dev with wake := none } a o []
-  generalize innerLoop c.env.now 64 { c.dev with wake := none } a o [] = r at *
+  have hL := innerLoop_link c.env.now (loopBound a) { c.dev with wake := none } a o []
+  generalize innerLoop c.env.now (loopBound a) { c.dev with wake := none } a o [] = r at *
   have hadv := advance_com r.act
   generalize advance r.act = a' at *
   obtain ⟨⟨hconn, hlog⟩, hcom⟩ := hL
